@@ -16,6 +16,7 @@ import numpy as np
 from mc import core
 
 PROPERTY = 'C06'
+GUARD = ['numqi.entangle', 'numqi.gellmann']  # argument-immutability oracle (mc.seams.ImmutabilityGuard)
 LEVEL = 'model_checking'
 RULE = ('state = (dimension pair, direction of the alphabet, method variant) or (inner model, lattice parameter point); the direction '
         'alphabet x variant product is enumerated completely; transition = one boundary / criterion evaluation compared with an '
